@@ -34,6 +34,7 @@ type lspStep struct {
 	DocOp  string `json:"docop,omitempty"` // the same step in the Lean driver's syntax (document ops only)
 	URI    string `json:"uri,omitempty"`
 	Expect string `json:"expect,omitempty"` // "response" | "none" | "" (not judged: malformed beyond id extraction)
+	Ver    int    `json:"ver,omitempty"`    // document version carried by a didOpen / didChange
 }
 
 type lspSummary struct {
@@ -172,6 +173,7 @@ type lspGen struct {
 	docs  map[string]bool
 	ver   int
 	texts []string
+	cur   map[string]string // the text last sent in full for a URI ("" when unknown)
 }
 
 func jstr(s string) string { b, _ := json.Marshal(s); return string(b) }
@@ -202,12 +204,25 @@ func (g *lspGen) pos() (int, int) {
 func (g *lspGen) step() lspStep {
 	uri := fmt.Sprintf("file:///d%d.sql", g.r.Intn(3))
 	g.ver++
+	if g.cur == nil {
+		g.cur = map[string]string{}
+	}
+	// sometimes: the same text again — a close followed by a re-open, or a change that changes nothing
+	if t, ok := g.cur[uri]; ok && g.r.Chance(12) {
+		if g.r.Bool() {
+			return lspStep{Body: fmt.Sprintf(`{"jsonrpc":"2.0","method":"textDocument/didChange","params":{"textDocument":{"uri":%s,"version":%d},"contentChanges":[{"text":%s}]}}`, jstr(uri), g.ver, jstr(t)),
+				DocOp: "C " + uri + " F:" + hex.EncodeToString([]byte(t)), URI: uri, Expect: "none", Ver: g.ver}
+		}
+		return lspStep{Body: fmt.Sprintf(`{"jsonrpc":"2.0","method":"textDocument/didOpen","params":{"textDocument":{"uri":%s,"languageId":"sql","version":%d,"text":%s}}}`, jstr(uri), g.ver, jstr(t)),
+			DocOp: "O " + uri + " " + hex.EncodeToString([]byte(t)), URI: uri, Expect: "none", Ver: g.ver}
+	}
 	switch k := g.r.Intn(20); {
 	case k < 4: // open
 		t := g.text()
 		g.docs[uri] = true
+		g.cur[uri] = t
 		return lspStep{Body: fmt.Sprintf(`{"jsonrpc":"2.0","method":"textDocument/didOpen","params":{"textDocument":{"uri":%s,"languageId":"sql","version":%d,"text":%s}}}`, jstr(uri), g.ver, jstr(t)),
-			DocOp: "O " + uri + " " + hex.EncodeToString([]byte(t)), URI: uri, Expect: "none"}
+			DocOp: "O " + uri + " " + hex.EncodeToString([]byte(t)), URI: uri, Expect: "none", Ver: g.ver}
 	case k < 11: // change
 		n := 1 + g.r.Intn(3)
 		var cs, ds []string
@@ -217,6 +232,7 @@ func (g *lspGen) step() lspStep {
 				full := g.text()
 				cs = append(cs, fmt.Sprintf(`{"text":%s}`, jstr(full)))
 				ds = append(ds, "F:"+hex.EncodeToString([]byte(full)))
+				g.cur[uri] = full
 				continue
 			}
 			sl, sc := g.pos()
@@ -226,9 +242,10 @@ func (g *lspGen) step() lspStep {
 			}
 			cs = append(cs, fmt.Sprintf(`{"range":{"start":{"line":%d,"character":%d},"end":{"line":%d,"character":%d}},"text":%s}`, sl, sc, el, ec, jstr(t)))
 			ds = append(ds, fmt.Sprintf("R:%d:%d:%d:%d:%s", sl, sc, el, ec, hex.EncodeToString([]byte(t))))
+			delete(g.cur, uri)
 		}
 		return lspStep{Body: fmt.Sprintf(`{"jsonrpc":"2.0","method":"textDocument/didChange","params":{"textDocument":{"uri":%s,"version":%d},"contentChanges":[%s]}}`, jstr(uri), g.ver, strings.Join(cs, ",")),
-			DocOp: "C " + uri + " " + strings.Join(ds, ","), URI: uri, Expect: "none"}
+			DocOp: "C " + uri + " " + strings.Join(ds, ","), URI: uri, Expect: "none", Ver: g.ver}
 	case k < 12: // close
 		return lspStep{Body: fmt.Sprintf(`{"jsonrpc":"2.0","method":"textDocument/didClose","params":{"textDocument":{"uri":%s}}}`, jstr(uri)),
 			DocOp: "X " + uri, URI: uri, Expect: "none"}
@@ -429,6 +446,16 @@ func runLspHistory(c *runCtx, pool *childPool, drv *Driver, steps []lspStep, sam
 		}
 		if json.Unmarshal(raw, &p) != nil {
 			continue
+		}
+		lastVer := 0
+		for _, st := range steps {
+			if st.URI == uri && st.Ver != 0 {
+				lastVer = st.Ver
+			}
+		}
+		if p.Version != 0 && lastVer != 0 && p.Version != lastVer {
+			res.fail("lsp-diagnostics-version", "the last published diagnostics carry another version than the document's last one", wit,
+				map[string]any{"uri": uri, "published_version": p.Version, "document_version": lastVer})
 		}
 		content, _ := hex.DecodeString(hx)
 		_, errs := gosqlx.ParseWithRecovery(string(content))
